@@ -222,6 +222,10 @@ impl Property for C08 {
         }
     }
 
+    fn shrink_iters(&self) -> u32 {
+        3000
+    }
+
     fn tape_len(&self) -> usize {
         700
     }
